@@ -85,6 +85,9 @@ var (
 	ErrFrozen = errors.New("vfs: process is dead (crash injected)")
 )
 
+// Hook, when set, is called before every step (used to make file-system steps scheduling points).
+var Hook func(s Step)
+
 // Reset puts the seam into the given mode and clears the log.
 func Reset(m int) { mode, log, frozen = m, nil, false }
 
@@ -102,6 +105,9 @@ func Frozen() bool { return frozen }
 
 // gate logs a step and decides: run it (n = bytes to perform for writes, -1 = all), or return err.
 func gate(s Step) (n int, err error) {
+	if Hook != nil {
+		Hook(s) // a scheduling point when the seam is combined with the controlled scheduler
+	}
 	i := len(log)
 	if mode != Passthrough {
 		log = append(log, s)
